@@ -67,10 +67,6 @@ theorem readLen_nat (a : AFile) (k : Nat) : a.readLen (k : Int) = min k (a.conte
 theorem AFile.readLen_le'' (f : AFile) (n : Int) : f.readLen n ≤ f.content.length - f.pos := by
   rw [AFile.readLen_eq]; split <;> omega
 
-theorem slice_append_slice (c : Bytes) (p a b : Nat) : slice c p a ++ slice c (p + a) b = slice c p (a + b) := by
-  simp only [slice]
-  rw [List.take_add, ← List.drop_drop]
-
 theorem pySlice_nat (l : Bytes) (b k : Nat) (h : b + k ≤ l.length) :
     pySlice l (b : Int) ((k : Int) + b) = slice l b k := by
   simp only [pySlice, pyIdx]
